@@ -620,6 +620,8 @@ class Verifier:
     def binop(self, op, a, b, st, node):
         a = self.nn(st, a, node, 'left operand')
         b = self.nn(st, b, node, 'right operand')
+        if isinstance(b, MRev) and type_of(b) is not None:
+            b = as_sv(b, type_of(b))
         ta = a.t if isinstance(a, SV) else None
         tb = b.t if isinstance(b, SV) else None
         if isinstance(op, ast.Add):
@@ -883,6 +885,9 @@ class Verifier:
         if isinstance(it, MRev):
             inner = self.iter_items(it.inner, st, node)
             return None if inner is None else list(reversed(inner))
+        from . import paths
+        if isinstance(it, paths.MPathParents):
+            return None
         if isinstance(it, MZip):
             parts = [self.iter_items(p, st, node) for p in it.parts]
             if any(p is None for p in parts):
@@ -907,6 +912,9 @@ class Verifier:
     # ------------------------------------------------------------- statements
     def bind_target(self, tgt, val, st, node):
         if isinstance(tgt, ast.Name):
+            lt = self.c.locals.get(tgt.id) if not self.inline_depth else None
+            if lt is not None and not isinstance(val, (SV, MU)) and val is not MNONE:
+                val = as_sv(val, lt)       # declared local type: literals become typed values
             st.env[tgt.id] = val
             return
         if isinstance(tgt, (ast.Tuple, ast.List)):
